@@ -548,7 +548,10 @@ func (c *Connection) setupConnection() error {
 				c.handshakeVersion = version
 				c.handshakeVersionData = versionData
 				if c.useNodeToNodeProto && versionData != nil {
-					if versionData.DiffusionMode() == protocol.DiffusionModeInitiatorAndResponder {
+					// Full duplex needs a protocol version that has it (node-to-node
+					// version 10 and later) besides the peer's diffusion mode
+					if versionData.DiffusionMode() == protocol.DiffusionModeInitiatorAndResponder &&
+						protocol.GetProtocolVersion(version).EnableFullDuplex {
 						handshakeFullDuplex = true
 					}
 				}
